@@ -58,3 +58,59 @@ def run(out, binp, thorough):
     out.cov["pid_codec_parse_accepted"] = sum(1 for c in cases if c["kind"] == "parse" and c["ok"])
     out.cov["pid_codec_parse_refused"] = sum(1 for c in cases if c["kind"] == "parse" and not c["ok"])
     return len(cases), nbad
+
+
+# ---- the provider adapters (oauth2/providers.go) against Model/ProviderJson.v -------------------------------------
+
+PHEAD = "From AB Require Import Model.ProviderJson.\nOpen Scope Z_scope.\n" \
+        "Definition ob_eqb (a b : option bytes) : bool := match a, b with Some x, Some y => beqb x y | None, None => true | _, _ => false end.\n"
+JID = dict(num="JNum", null="JNull", absent="JAbsent", bool="JBool", obj="JObj")
+
+
+def prov_to_coq(cases):
+    I = vlib.Interner()
+    body, names = [], []
+    for c in cases:
+        n = c["id"]
+        v = "(JStr %s)" % I.b(c["s"]) if c["kind"] == "str" else JID[c["kind"]]
+        want = "(Some %s)" % I.b(c["uid"]) if c["ok"] else "None"
+        body.append("Definition r%d := Eval vm_compute in (if ob_eqb (provider_uid %s) %s then [] else [(%d, 3)])." % (n, v, want, n))
+        names.append("r%d" % n)
+    return PHEAD + I.header() + "\n" + "\n".join(body) + vlib.results_footer(names)
+
+
+def run_providers(out, binp, thorough):
+    n = 20000 if thorough else 300
+    path = os.path.join(vlib.CACHE, "prov_cases.jsonl")
+    rc, log = vlib.run_harness(["providers", "-seed", str(vlib.seed()), "-n", str(n), "-out", path], binp=binp, timeout=3000)
+    if rc != 0:
+        out.infra.append("harness providers suite failed: " + log[-1500:])
+        return 0, 0
+    cases = vlib.read_jsonl(path)
+    os.remove(path)
+    shards = 16 if thorough else 2
+    per = max(1, (len(cases) + shards - 1) // shards)
+    files = [("C14_prov_%d" % (i // per), prov_to_coq(cases[i:i + per])) for i in range(0, len(cases), per)]
+    res, ok, logs = vlib.run_case_files(files)
+    vlib.clean_cases("C14_prov")
+    if not ok:
+        out.infra.append("coqc failed on provider cases:\n" + "\n".join(logs)[-2000:])
+    byid = {c["id"]: c for c in cases}
+    bad = sorted(res)
+    # two different id documents must not give the same uid (checked on the observations directly as well)
+    seen = {}
+    for c in cases:
+        if c["ok"] and c["kind"] in ("str", "num"):
+            key = (c["provider"], c["uid"])
+            src = c["s"] if c["kind"] == "str" else c["doc"]
+            if key in seen and seen[key] != src and "C14:providers:collision" not in [v["sig"] for v in out.violations]:
+                out.violations.append(dict(sig="C14:providers:collision", what="two different provider ids give the same uid",
+                                           replay=dict(kind="provider-case", case=c, other=seen[key])))
+            seen.setdefault(key, src)
+    if bad:
+        c = byid[bad[0][0]]
+        out.violations.append(dict(sig="C14:providers:3", what="the provider adapter's uid differs from provider_uid (an id that is not a "
+                                   "JSON string must be refused, a string id taken verbatim)", replay=dict(kind="provider-case", case=c)))
+    out.cov["provider_cases"] = len(cases)
+    out.cov["provider_refused"] = sum(1 for c in cases if not c["ok"])
+    return len(cases), len(bad)
